@@ -401,6 +401,10 @@ class Ledger:
                 if l[0] != "cmp":
                     continue
                 a, bb_ = norm_len(df.canon(l[2], b)), df.strip(l[3])
+                if bb_[0] != "const":
+                    kv_ = df._num(bb_)
+                    if kv_ is not None and kv_.denominator == 1:
+                        bb_ = ("const", int(kv_))
                 if a != len_tree_s or bb_[0] != "const" or not isinstance(bb_[1], int):
                     continue
                 if l[1] == "ge":
